@@ -1,7 +1,8 @@
 /* Driver for C19 (dispatch block objects: cancel, wait and notify follow the execution).
  * Seeded random executions: one block object made with dispatch_block_create* (random flags),
  * three client threads that submit it (dispatch_async / dispatch_group_async / dispatch_sync /
- * b() / dispatch_block_perform), cancel it, wait on it (now / timed / forever), register
+ * b() / dispatch_block_perform / dispatch_after with a deadline in the future / as the event handler of a
+ * one-shot timer source: the last two reach the NON-CONSUMING _dispatch_block_async_invoke), cancel it, wait on it (now / timed / forever), register
  * notification blocks and call dispatch_block_testcancel, all at random moments relative to the
  * start and the end of the block's body, under schedule perturbation injected inside the library's
  * atomicity windows (cancel's or, wait's or/xchg/load, the invoke paths' inc/xchg, the group words).
@@ -12,7 +13,14 @@
  * to the block's private data and to its private group is recorded in one total order; the ndjson
  * trace is validated against spec/BlockTrace.tla and the property's statements are evaluated on the
  * recorded order (API-level oracles, exit code 2).  A waiter or a notification that is never released
- * is a hang (exit 71); an internal DISPATCH_CLIENT_CRASH in these legal programs is a crash (exit 70). */
+ * is a hang (exit 71); an internal DISPATCH_CLIENT_CRASH in these legal programs is a crash (exit 70).
+ *
+ * Timer-started submissions ("after", "handler"): the deadline (an uptime value) is published before the
+ * SubmitCall record; right AFTER logging a CancelRet / WaitRet / NotifyRan record the thread reads the same
+ * clock: if no timer submission of the execution had reached its deadline (margin ND_MARGIN_NS) the record is
+ * marked nd = 1 ("not due": no such invocation can have been started at that record; a timer never fires
+ * before its deadline, C11).  That pins "cancelled before it starts" for these paths, in the trace
+ * (BlockTrace.tla: NotDue) and in the API oracle. */
 #include "internal.h"
 #include <pthread.h>
 #include <malloc.h>
@@ -22,16 +30,20 @@
 #define MAXOPS 16
 #define MAXE 32
 enum { OP_SUBMIT, OP_CANCEL, OP_TEST, OP_WAIT, OP_NOTIFY, OP_PERFORM, OP_NAP };
-enum { A_ASYNC, A_GASYNC, A_SYNC, A_DIRECT, A_PERFORM };
-static const char *AN[] = { "async", "gasync", "sync", "direct", "perform" };
+enum { A_ASYNC, A_GASYNC, A_SYNC, A_DIRECT, A_PERFORM, A_AFTER, A_HANDLER };
+static const char *AN[] = { "async", "gasync", "sync", "direct", "perform", "after", "handler" };
+#define IS_TIMER_API(a) ((a) == A_AFTER || (a) == A_HANDLER)
+#define MAXSLOT 4
+#define ND_MARGIN_NS 20000ull
+#define NDMAX 65536
 static const char *KN[] = { "now", "timed", "forever" };
 
 typedef struct { int op, arg; unsigned nap; } op_t;
 typedef struct { uint64_t call, ret; int api, thr; } sub_t;
-typedef struct { uint64_t call, ret; long r; int kind; uint64_t t0, t1, tmo; } wait_t;
+typedef struct { uint64_t call, ret; long r; int kind; uint64_t t0, t1, tmo; int nd; } wait_t;
 typedef struct { uint64_t call, ret; long r; } test_t;
-typedef struct { uint64_t call, ret; } canc_t;
-typedef struct { uint64_t call, ret, ran; _Atomic int runs; int used; } notif_t;
+typedef struct { uint64_t call, ret; int nd; } canc_t;
+typedef struct { uint64_t call, ret, ran; _Atomic int runs; int used; int nd; } notif_t;
 
 static int g_execs = 40;
 static uint64_t g_seed;
@@ -61,6 +73,13 @@ static uint64_t g_bstart[MAXE], g_bend[MAXE]; static _Atomic int g_nbstart, g_nb
 static _Atomic int g_pbody;
 static int g_used_gasync;
 static int g_exec_idx;
+/* timer-started submissions of this execution: slot -> deadline (uptime, 0 = not yet submitted), delay, source */
+static int g_ntimer;
+static _Atomic uint64_t g_tgt[MAXSLOT];
+static uint64_t g_delta_ns[MAXSLOT];
+static dispatch_source_t g_src[MAXSLOT];
+/* sequence numbers of the records that carry the "not due" witness (all executions; read by the projector) */
+static uint64_t g_ndseq[NDMAX]; static _Atomic int g_nnd;
 
 static uint64_t now_ns(void)
 {
@@ -80,6 +99,29 @@ static void spin_us(unsigned us)
 	while (now_ns() < t) { if ((vrt_rand() & 7) == 0) sched_yield(); }
 }
 
+/* Called right AFTER logging the record `seq`: 1 = no timer submission of this execution had reached its
+ * deadline (a slot still 0 is published before its SubmitCall record, i.e. after `seq`). */
+static int not_due(uint64_t seq)
+{
+	if (!g_ntimer) return 0;
+	uint64_t tg[MAXSLOT];
+	for (int s = 0; s < g_ntimer; s++) tg[s] = atomic_load(&g_tgt[s]);
+	uint64_t now = _dispatch_uptime();
+	for (int s = 0; s < g_ntimer; s++) if (tg[s] && now + ND_MARGIN_NS >= tg[s]) return 0;
+	int i = atomic_fetch_add(&g_nnd, 1);
+	if (i >= NDMAX) return 0;
+	g_ndseq[i] = seq;
+	return 1;
+}
+
+static int nd_lookup(uint64_t seq)
+{
+	int n = atomic_load(&g_nnd);
+	if (n > NDMAX) n = NDMAX;
+	for (int i = 0; i < n; i++) if (g_ndseq[i] == seq) return 1;
+	return 0;
+}
+
 /* ------------------------------------------------------------ the block's body */
 static void body(void)
 {
@@ -96,11 +138,18 @@ static void body(void)
 }
 
 /* ------------------------------------------------------------ client operations */
-static void do_submit(int api)
+static void do_submit(int arg)
 {
+	int api = arg & 0xff, slot = arg >> 8;
 	int k = atomic_fetch_add(&g_nsub, 1);
 	sub_t *s = &g_sub[k];
+	dispatch_time_t when = 0;
 	s->api = api; s->thr = vrt_tid();
+	if (IS_TIMER_API(api)) {
+		/* deadline in the future, published before the SubmitCall record */
+		when = dispatch_time(DISPATCH_TIME_NOW, (int64_t)g_delta_ns[slot]);
+		atomic_store(&g_tgt[slot], (uint64_t)when);
+	}
 	s->call = vrt_api("SubmitCall", g_obj_dbpd, api, k, 0);
 	atomic_store(&g_submit_started, 1);
 	switch (api) {
@@ -108,6 +157,16 @@ static void do_submit(int api)
 	case A_GASYNC: dispatch_group_async(g_ug, g_q, g_b); break;
 	case A_SYNC:   dispatch_sync(g_q, g_b); break;
 	case A_DIRECT: g_b(); break;
+	case A_AFTER:  dispatch_after(when, g_q, g_b); break;
+	case A_HANDLER: {
+		/* one-shot timer source whose event handler is the block object (cancelled by main when the execution is over) */
+		dispatch_source_t ds = dispatch_source_create(DISPATCH_SOURCE_TYPE_TIMER, 0, 0, g_q);
+		dispatch_source_set_timer(ds, when, DISPATCH_TIME_FOREVER, (uint64_t)(vrt_rand() % 3) * 200000ull);
+		dispatch_source_set_event_handler(ds, g_b);
+		g_src[slot] = ds;
+		dispatch_activate(ds);
+		break;
+	}
 	}
 	s->ret = vrt_api("SubmitRet", g_obj_dbpd, api, k, 0);
 }
@@ -134,7 +193,8 @@ static void do_cancel(void)
 	uint64_t c = vrt_api("CancelCall", g_obj_dbpd, 0, 0, 0);
 	dispatch_block_cancel(g_b);
 	uint64_t r = vrt_api("CancelRet", g_obj_dbpd, 0, 0, 0);
-	if (i < MAXE) { g_canc[i].call = c; g_canc[i].ret = r; }
+	int nd = not_due(r);
+	if (i < MAXE) { g_canc[i].call = c; g_canc[i].ret = r; g_canc[i].nd = nd; }
 }
 
 static void do_test(void)
@@ -162,7 +222,9 @@ static void do_wait(int kind, uint64_t tmo_ns)
 	long r = dispatch_block_wait(g_b, t) != 0;
 	uint64_t t1 = now_ns();
 	uint64_t e = vrt_api("WaitRet", g_obj_dbpd, r, 0, 0);
+	int nd = not_due(e);
 	if (i < MAXE) {
+		g_wait[i].nd = nd;
 		g_wait[i].call = c; g_wait[i].ret = e; g_wait[i].r = r; g_wait[i].kind = kind;
 		g_wait[i].t0 = t0; g_wait[i].t1 = t1; g_wait[i].tmo = tmo_ns;
 	}
@@ -176,7 +238,8 @@ static void do_notify(int n)
 	nf->call = vrt_api("NotifyCall", g_obj_dbpd, n, 0, 0);
 	dispatch_block_notify(g_b, g_nq, ^{
 		uint64_t s = vrt_api("NotifyRan", g_obj_dbpd, n, 0, 0);
-		if (atomic_fetch_add(&nf->runs, 1) == 0) nf->ran = s;
+		int nd = not_due(s);
+		if (atomic_fetch_add(&nf->runs, 1) == 0) { nf->ran = s; nf->nd = nd; }
 	});
 	nf->ret = vrt_api("NotifyRet", g_obj_dbpd, n, 0, 0);
 }
@@ -220,9 +283,15 @@ static void proj(FILE *f, const vrt_rec_t *r)
 			fprintf(f, "{\"e\":\"%s\",\"t\":%d,\"api\":\"%s\",\"k\":%ld}\n", r->name, r->tid, AN[r->a], r->b + 1);
 		else if (!strcmp(r->name, "WaitCall"))
 			fprintf(f, "{\"e\":\"WaitCall\",\"t\":%d,\"kind\":\"%s\"}\n", r->tid, KN[r->a]);
-		else if (!strcmp(r->name, "WaitRet") || !strcmp(r->name, "TestRet"))
+		else if (!strcmp(r->name, "WaitRet"))
+			fprintf(f, "{\"e\":\"%s\",\"t\":%d,\"r\":%ld,\"nd\":%d}\n", r->name, r->tid, r->a, nd_lookup(r->seq));
+		else if (!strcmp(r->name, "TestRet"))
 			fprintf(f, "{\"e\":\"%s\",\"t\":%d,\"r\":%ld}\n", r->name, r->tid, r->a);
-		else if (!strcmp(r->name, "NotifyCall") || !strcmp(r->name, "NotifyRet") || !strcmp(r->name, "NotifyRan"))
+		else if (!strcmp(r->name, "CancelRet"))
+			fprintf(f, "{\"e\":\"%s\",\"t\":%d,\"nd\":%d}\n", r->name, r->tid, nd_lookup(r->seq));
+		else if (!strcmp(r->name, "NotifyRan"))
+			fprintf(f, "{\"e\":\"%s\",\"t\":%d,\"n\":%ld,\"nd\":%d}\n", r->name, r->tid, r->a + 1, nd_lookup(r->seq));
+		else if (!strcmp(r->name, "NotifyCall") || !strcmp(r->name, "NotifyRet"))
 			fprintf(f, "{\"e\":\"%s\",\"t\":%d,\"n\":%ld}\n", r->name, r->tid, r->a + 1);
 		else
 			fprintf(f, "{\"e\":\"%s\",\"t\":%d}\n", r->name, r->tid);
@@ -301,18 +370,24 @@ static void shuffle(int t)
 static int pick_api(void)
 {
 	unsigned k = (unsigned)(vrt_rand() % 100);
-	return k < 35 ? A_ASYNC : k < 55 ? A_SYNC : k < 75 ? A_GASYNC : A_DIRECT;
+	return k < 24 ? A_ASYNC : k < 38 ? A_SYNC : k < 52 ? A_GASYNC : k < 66 ? A_DIRECT : k < 84 ? A_AFTER : A_HANDLER;
 }
 
 static void gen_programs(void)
 {
 	for (int t = 0; t < NT; t++) g_nops[t] = 0;
 	g_used_gasync = 0;
+	g_ntimer = 0;
 	int nsubs = g_mode_multi ? 2 + (int)(vrt_rand() % 2) : 1;
 	for (int i = 0; i < nsubs; i++) {
-		int api = pick_api();
+		int api = pick_api(), slot = 0;
 		if (api == A_GASYNC) g_used_gasync = 1;
-		add_op((int)(vrt_rand() % NT), OP_SUBMIT, api);
+		if (IS_TIMER_API(api)) {
+			/* delay: short (the clients' other calls mostly come after the fire) or long (mostly before) */
+			slot = g_ntimer++;
+			g_delta_ns[slot] = (vrt_rand() & 1) ? 150000 + vrt_rand() % 350000 : 500000 + vrt_rand() % 2500000;
+		}
+		add_op((int)(vrt_rand() % NT), OP_SUBMIT, api | (slot << 8));
 	}
 	unsigned kc = (unsigned)(vrt_rand() % 100);
 	int ncanc = kc < 30 ? 0 : kc < 85 ? 1 : 2;
@@ -355,9 +430,13 @@ static void judge(void)
 	if (nbs > nsub) oracle_fail("more bodies than submissions", nbs, nsub);
 	/* cancelled before it starts never runs its body: a submission whose earliest possible start lies
 	 * after the return of a cancel must be skipped */
-	int may_run = 0;
+	int may_run = 0, cancel_nd = 0, timer_only = nsub > 0;
+	for (int i = 0; i < ncanc && i < MAXE; i++) if (g_canc[i].nd) cancel_nd = 1;
+	for (int i = 0; i < nsub; i++) if (!IS_TIMER_API(g_sub[i].api)) timer_only = 0;
 	for (int i = 0; i < nsub; i++) {
 		uint64_t earliest = g_sub[i].call;
+		/* timer-started: a cancel returned while no timer of this execution was due */
+		if (IS_TIMER_API(g_sub[i].api) && cancel_nd) continue;
 		if (g_gate && g_sub[i].api != A_DIRECT && g_gate_open_seq > earliest) earliest = g_gate_open_seq;
 		if (earliest < first_cancel_ret) may_run++;
 	}
@@ -376,6 +455,8 @@ static void judge(void)
 	for (int i = 0; i < nwait && i < MAXE; i++) {
 		wait_t *w = &g_wait[i];
 		if (w->r == 0) {
+			if (w->nd && timer_only)
+				oracle_fail("dispatch_block_wait returned 0 before the timer that starts the block object was due", (long)w->ret, 0);
 			if (nbs > 0) {
 				if (!(first_body_end < w->ret))
 					oracle_fail("dispatch_block_wait returned 0 before the first execution completed", (long)w->ret, (long)first_body_end);
@@ -398,6 +479,8 @@ static void judge(void)
 		if (!nf->used || !nf->call) continue;
 		int runs = atomic_load(&nf->runs);
 		if (runs != 1) { oracle_fail("notification block ran != 1 times", runs, n); continue; }
+		if (nf->nd && timer_only)
+			oracle_fail("notification ran before the timer that starts the block object was due", (long)nf->ran, n);
 		if (nbs > 0) {
 			if (!(first_body_end < nf->ran))
 				oracle_fail("notification ran before the first execution completed", (long)nf->ran, (long)first_body_end);
@@ -473,6 +556,7 @@ int main(int argc, char **argv)
 		atomic_store(&g_nbstart, 0); atomic_store(&g_nbend, 0); atomic_store(&g_done_threads, 0);
 		atomic_store(&g_gate_open, 0); atomic_store(&g_submit_started, 0); atomic_store(&g_waited_ok, 0);
 		g_gate_open_seq = g_gate_start_seq = g_gate_end_seq = g_ug_done_seq = 0;
+		for (int s = 0; s < MAXSLOT; s++) { atomic_store(&g_tgt[s], 0); g_src[s] = NULL; }
 		gen_programs();
 
 		g_q = dispatch_queue_create("c19.q", g_qserial ? DISPATCH_QUEUE_SERIAL : DISPATCH_QUEUE_CONCURRENT);
@@ -503,8 +587,19 @@ int main(int argc, char **argv)
 			atomic_store(&g_gate_open, 1);
 		}
 		pthread_barrier_wait(&g_bar);      /* clients done (a client that never returns is caught by the watchdog: hang) */
+		/* timer-started submissions: every timer has fired and its invocation has counted itself (a timer that
+		 * never fires / an invocation that never counts is caught below: performed != submissions) */
+		if (g_ntimer) {
+			uint64_t lim = now_ns() + 30ull * 1000000000ull;
+			while (*(volatile int *)&g_dbpd->dbpd_performed < atomic_load(&g_nsub) && now_ns() < lim) usleep(100);
+		}
 		/* drain: everything submitted to the queue has run */
 		dispatch_barrier_sync(g_q, ^{ });
+		for (int s = 0; s < g_ntimer; s++) if (g_src[s]) {
+			dispatch_source_cancel(g_src[s]);
+			dispatch_release(g_src[s]);
+			g_src[s] = NULL;
+		}
 		if (g_used_gasync) {
 			dispatch_group_wait(g_ug, DISPATCH_TIME_FOREVER);
 			g_ug_done_seq = vrt_api("UgDone", g_obj_dbpd, 0, 0, 0);
